@@ -610,7 +610,7 @@ func Run(r *evid.Run) {
 		r.Cap(fmt.Sprintf("deadline: %d of %d histories", done, total))
 	}
 	runFailedOpen(r)
-	r.Rule("failed first open: the very first Open hits an I/O error at its j-th mutating file-system operation (every j outside pebble's DB directory, where an error ends the process; the process stays up) and is retried, then two puts and a completed Sync, then a power loss: the reopened table is at or beyond the synced index")
+	r.Rule("failed first open: the very first Open hits an I/O error at its j-th mutating file-system operation (every j outside pebble's DB directory, where an error ends the process; the process stays up) and is retried - and, for EVERY j, the first Open is cut short at that operation by a panic (the process dies there, the machine stays up, nothing handed to the file system is lost and nothing extra becomes durable) and the table is opened again - then two puts and a completed Sync, then a power loss: the reopened table is at or beyond the synced index")
 	r.Assume("fault model of the property: file data durable up to the file's last sync, directory entries up to the directory's last sync (pebble strict MemFS); no torn writes inside a synced file")
 	r.Assume("the workload is allowed to run on after the crash point with syncs ineffective, then unsynced state is dropped; operations after the crash point therefore never reach durable state")
 }
@@ -619,9 +619,10 @@ func Run(r *evid.Run) {
 // operation (the process stays up, nothing is lost, nothing extra becomes durable) and is retried;
 // then two puts and a Sync, then a power loss. What the completed Sync covered must survive - "it
 // exists" (left behind by the failed attempt) is not "it is durable". j = 0: no error.
-func failedOpenOne(j int) (vs []viol, outcome string, ops []fsmx.Op) {
+func failedOpenOne(j int, dies bool) (vs []viol, outcome string, ops []fsmx.Op) {
 	env := fsmx.NewEnv()
 	env.FS.FailOp = j
+	env.FS.FailPanics = dies
 	env.FS.Keep = true
 	inst, _, err := env.Open("t", 10001, fsm.RecoveryTypeSnapshot)
 	ops = append(ops, env.FS.Log...)
@@ -664,18 +665,24 @@ func failedOpenOne(j int) (vs []viol, outcome string, ops []fsmx.Op) {
 }
 
 func runFailedOpen(r *evid.Run) {
-	_, _, ops := failedOpenOne(0)
+	_, _, ops := failedOpenOne(0, false)
 	for j := 0; j <= len(ops); j++ {
-		// only operations of regatta's own code fail: an I/O error inside pebble's DB directory makes
-		// pebble end the process (Logger.Fatalf), which is a crash - and crashes are enumerated above
-		if j > 0 && strings.Contains(ops[j-1].Path, "<rnd>/") {
-			continue
-		}
-		vs, outcome, _ := failedOpenOne(j)
-		r.Outcome("failed-open "+outcome, true)
-		r.AddExtra("failed_first_open_cases", 1)
-		for _, v := range vs {
-			r.Violate(v.sig, v.detail, Case{Family: "failed-open", Crash: j})
+		for _, dies := range []bool{false, true} {
+			// an I/O error is only injected into operations of regatta's own code: inside pebble's DB
+			// directory it makes pebble end the process (Logger.Fatalf), which is the other mode
+			if j > 0 && !dies && strings.Contains(ops[j-1].Path, "<rnd>/") {
+				continue
+			}
+			vs, outcome, _ := failedOpenOne(j, dies)
+			r.Outcome(fmt.Sprint("failed-open ", dies, " ", outcome), true)
+			r.AddExtra("failed_first_open_cases", 1)
+			for _, v := range vs {
+				sig := v.sig
+				if dies {
+					sig = strings.Replace(sig, "failed-first-open/", "first-open-dies/", 1)
+				}
+				r.Violate(sig, v.detail, Case{Family: "failed-open", Crash: j, Process: dies})
+			}
 		}
 	}
 }
@@ -686,7 +693,7 @@ func Replay(raw json.RawMessage) (string, bool) {
 		return err.Error(), false
 	}
 	if c.Family == "failed-open" {
-		vs, outcome, _ := failedOpenOne(c.Crash)
+		vs, outcome, _ := failedOpenOne(c.Crash, c.Process)
 		var sb strings.Builder
 		sb.WriteString(outcome + "\n")
 		for _, v := range vs {
